@@ -229,7 +229,7 @@ PROP_GROUPS = {
     "C14": ["comp"],
     "C15": ["reg"],
     "C16": ["world", "ewburst"],
-    "C18": ["reg", "mix", "hier"],
+    "C18": ["reg", "mix", "hier", "world"],
 }
 
 # sizes per tier: simulated behaviours per group, random programs per group, TLC time limits (s)
